@@ -213,7 +213,12 @@ class SimCommunicator(kiwipy.CommunicatorHelper):
                 reply.set_exception(kiwipy.TaskRejected('no subscriber accepted the task'))
 
         self.net.send(deliver, **options)
-        return None if no_reply else reply
+        if no_reply:
+            # the sender only learns that the task was published (kiwipy: a future that resolves to None)
+            published = kiwipy.Future()
+            published.set_result(None)
+            return published
+        return reply
 
     def _respond_task(self, result, reply):
         """Task replies: a rejection raised later by the (asynchronous) subscriber comes back as TaskRejected."""
